@@ -116,7 +116,10 @@ func (c *controlConn) heartBeat() {
 		case error:
 			goto reconn
 		default:
-			panic(fmt.Sprintf("gocql: unknown frame in response to options: %T", resp))
+			// a well-formed response of a kind that cannot answer OPTIONS: the peer is broken or the
+			// streams are out of step; reconnect the control connection instead of crashing the process
+			c.session.logger.Printf("gocql: control connection: unexpected frame in response to options: %T\n", resp)
+			goto reconn
 		}
 
 	reconn:
